@@ -665,7 +665,31 @@ def py_part(py_src):
     except (SyntaxError, pyexpr.Unknown):
         pass
     out.append("def fitLeaf (i : Int) : Int := %s" % Site(tbl2).int(leaf, "_fit_reglin leaf mask"))
+    # the per-row dot products are stored in a float64 column: `pred = numpy.ones((X.shape[0], 1))` (numpy's default
+    # dtype), whatever the dtype of the rows to predict; `Xone = numpy.hstack([X, pred])`
+    f64 = UB("_predict_reglin: allocation of pred / Xone not recognised")
+    try:
+        fn = pyexpr.find_function(ast.parse(py_src), "PiecewiseTreeRegressor._predict_reglin")
+        pa = [src_of(a.value) for a in pyexpr.assignments(fn, "pred")]
+        xa = [src_of(a.value) for a in pyexpr.assignments(fn, "Xone")]
+        if pa == ["numpy.ones((X.shape[0], 1))"] and xa == ["numpy.hstack([X, pred])"]:
+            f64 = "true"
+        else:
+            f64 = UB("_predict_reglin: pred = %s ; Xone = %s" % ("|".join(pa), "|".join(xa)))
+    except (SyntaxError, pyexpr.Unknown):
+        pass
+    out.append("/-- the leaf predictions are accumulated in a float64 buffer -/")
+    out.append("def predBufferIsFloat64 : Bool := %s" % f64)
     return out
+
+
+def rcond_part(linear_src):
+    """`_reglin` hands `rcond` to LAPACK dgelss: a negative value means machine precision, i.e. no singular value of a
+    full-rank design is discarded and the result is THE least-squares solution (the trusted-base assumption on dgelss)."""
+    m = re.findall(r"cdef\s+float64_t\s+rcond\s*=\s*([-+0-9.eE]+)", linear_src)
+    ok = len(m) == 1 and float(m[0]) < 0
+    return ["", "/-- `rcond` given to dgelss is negative (machine precision): found %s -/" % (m or "nothing"),
+            "def reglinRcondIsMachinePrecision : Bool := %s" % ("true" if ok else UB("rcond = %s" % m))]
 
 
 def generate(common_src, simple_src, fast_src, linear_src, py_src):
@@ -680,5 +704,6 @@ def generate(common_src, simple_src, fast_src, linear_src, py_src):
     rows += fast_part(fm)
     rows += linear_part(lm)
     rows += py_part(py_src)
+    rows += rcond_part(linear_src)
     rows += ["", "end MlVerif.Gen.C09", ""]
     return "\n".join(rows)
